@@ -22,7 +22,7 @@ RULE = ("seeded base pipelines (every parameter placement: node / initial contex
         "default / default-overridden-by-context) x TZ in {UTC, +09:00, -08:00, +05:45} x detail levels; per TZ the "
         "fault-free run plus sampled sub-runs (unresolvable parameter, leaf exception, stall). distinct_nontrivial = "
         "distinct (pipeline digest, TZ, sub-run kind) whose trace contained at least one SER."
-        " Further seeded dimensions: remote-executor emulation (new context object), in-place mutating leaf, equal contexts in different insertion order per TZ, falsy / NaN / int-vs-float context values, a node that writes then fails, strict-subclass payloads, every subset of detail flags.")
+        " Further seeded dimensions: remote-executor emulation (new context object), in-place mutating leaf, equal contexts in different insertion order per TZ, falsy / NaN / int-vs-float context values, a node that writes then fails, strict-subclass payloads, every subset of detail flags. Seventh round: microsecond-resolution clocks with readings at the end of a second, node values shadowing a same-named context key.")
 REAL_COMPONENTS = ["Pipeline / orchestrator SER composition", "DeltaCollector", "trace._utils digests", "JsonlTraceDriver",
                    "parameter resolution", "node factory + nodes", "generated sweep/slicer/shorthand classes"]
 STUB_COMPONENTS = ["leaf processors (svsim.lib)", "RecordingExecutor", "SimClock (only clock), SimUUID", "TZ via tzset()"]
